@@ -202,8 +202,24 @@ func (m *Model) ruleCOMMIT(r *Results) {
 			r.ok(rule, name+" / rollback on failure", m.instrPos(rollback), "every failing path (callback error or commit error) passes Rollback before returning or retrying")
 		}
 	}
-	// (5) the commit error reaches the function result
-	{
+	// (5) the commit error, and the error of a failed Begin, reach the function result
+	var beginErr ssa.Value
+	if bv := begin.Value(); bv != nil && bv.Referrers() != nil {
+		for _, ref := range *bv.Referrers() {
+			if ex, ok := ref.(*ssa.Extract); ok && types.Identical(ex.Type(), types.Universe.Lookup("error").Type()) {
+				beginErr = ex
+			}
+		}
+	}
+	for _, target := range []struct {
+		v    ssa.Value
+		what string
+		at   ssa.Instruction
+	}{{commit.Value(), "commit", commit}, {beginErr, "begin", begin}} {
+		if target.v == nil {
+			r.bad(rule, name+" / "+target.what+" error reported", m.instrPos(target.at), "the error result of %s is not even taken", target.what)
+			continue
+		}
 		okFlow := false
 		var visit func(v ssa.Value, depth int) bool
 		seen := map[ssa.Value]bool{}
@@ -213,7 +229,7 @@ func (m *Model) ruleCOMMIT(r *Results) {
 			}
 			seen[v] = true
 			v = stripConv(v)
-			if v == ssa.Value(commit.Value()) {
+			if v == target.v {
 				return true
 			}
 			switch x := v.(type) {
@@ -249,7 +265,11 @@ func (m *Model) ruleCOMMIT(r *Results) {
 				}
 			}
 		}
-		r.check(okFlow, rule, name+" / commit error reported", m.instrPos(commit), "the error of Commit flows to the runner's result", "the result of Commit is discarded: a write whose commit failed is acknowledged as successful")
+		if target.what == "commit" {
+			r.check(okFlow, rule, name+" / commit error reported", m.instrPos(commit), "the error of Commit flows to the runner's result", "the result of Commit is discarded: a write whose commit failed is acknowledged as successful")
+		} else {
+			r.check(okFlow, rule, name+" / begin error reported", m.instrPos(begin), "the error of a failed Begin flows to the runner's result", "the error of Begin never reaches the runner's result: when the transaction cannot be started (database locked past the busy timeout, I/O error) the write is not performed but acknowledged as successful")
+		}
 	}
 }
 
@@ -928,6 +948,7 @@ func (m *Model) rmwLoops() []*rmwLoop {
 				lp.Reads = append(lp.Reads, c)
 			} else if m.inPkg(callee) && callee.Parent() == nil && len(callee.Blocks) > 0 {
 				// a helper that only dispatches to the conditional writers
+				dispatched := false
 				m.eachCall(callee, func(c2 ssa.CallInstruction) {
 					f2 := c2.Common().StaticCallee()
 					if f2 == nil {
@@ -936,8 +957,14 @@ func (m *Model) rmwLoops() []*rmwLoop {
 					if _, ok := conds[f2]; ok || f2.Name() == "WriteResurrectionWithXattrs" {
 						lp.Writes = append(lp.Writes, c2)
 						lp.Via[c2] = c
+						dispatched = true
 					}
 				})
+				if !dispatched && m.isDocWriter(callee) {
+					// any other function that performs a document write (an unexported writer such as
+					// remove): it must be handed the CAS that was read, too
+					lp.Writes = append(lp.Writes, c)
+				}
 			}
 		})
 		if len(lp.Reads) > 0 && len(lp.Writes) > 0 {
@@ -964,11 +991,36 @@ func (m *Model) ruleRMW(r *Results) {
 			callee := w.Common().StaticCallee()
 			idx, isCond := conds[callee]
 			key := name + " / write-back via " + callee.Name()
+			if !isCond && m.isDocWriter(callee) {
+				// an internal writer: its expected-CAS parameter (uint64 or *uint64), if any
+				for i, p := range callee.Params {
+					t := p.Type()
+					if pt, ok := t.(*types.Pointer); ok {
+						t = pt.Elem()
+					}
+					if b, ok := t.Underlying().(*types.Basic); ok && b.Kind() == types.Uint64 && i < len(w.Common().Args) {
+						idx, isCond = i, true
+						break
+					}
+				}
+			}
 			if !isCond || idx < 0 {
 				r.bad(rule, key+" / no CAS", m.instrPos(w), "the read-modify-write loop writes back through %s, which takes no expected CAS: a write that lands between the loop's read and this write is silently overwritten (the callback is not re-run on the newer version)", callee.Name())
 				continue
 			}
 			arg := w.Common().Args[idx]
+			if _, isPtr := arg.Type().Underlying().(*types.Pointer); isPtr {
+				// CAS passed by pointer: nil means "unconditional"
+				if isNilConst(stripConv(arg)) {
+					r.bad(rule, key+" / CAS", m.instrPos(w), "the write-back passes no expected CAS (nil) to %s: a write that lands between the loop's read and this write is silently overwritten", callee.Name())
+					continue
+				}
+				if al, ok := stripConv(arg).(*ssa.Alloc); ok {
+					if st := singleStore(al); st != nil {
+						arg = st.Val
+					}
+				}
+			}
 			src := m.casSource(arg, fn, lp, 0, map[ssa.Value]bool{})
 			switch src {
 			case "read":
@@ -1005,6 +1057,39 @@ func (m *Model) ruleRMW(r *Results) {
 	}
 	if len(loops) < 3 {
 		r.undecided(rule, "instance-floor", "-", "found %d read-modify-write loops, 3 were confirmed by hand (Update, sub-document writer, WriteUpdateWithXattrs)", len(loops))
+	}
+	// (e) the retry tests recognise a CAS mismatch by a type assertion, which a wrapped error fails:
+	// the mismatch error is never handed to fmt.Errorf
+	usesAssert := false
+	for _, f := range m.Funcs {
+		for _, b := range f.Blocks {
+			for _, ins := range b.Instrs {
+				if ta, ok := ins.(*ssa.TypeAssert); ok && isNamed(ta.AssertedType, sgbucketPath, "CasMismatchErr") {
+					usesAssert = true
+				}
+			}
+		}
+	}
+	if usesAssert {
+		wrapped := ""
+		for _, f := range m.Funcs {
+			m.eachCall(f, func(c ssa.CallInstruction) {
+				g := c.Common().StaticCallee()
+				if g == nil || g.Pkg == nil || g.Pkg.Pkg.Path() != "fmt" || g.Name() != "Errorf" || len(c.Common().Args) < 2 {
+					return
+				}
+				vals, dyn := varargValues(c.Common().Args[1])
+				if dyn {
+					return
+				}
+				for _, v := range vals {
+					if mi, ok := v.(*ssa.MakeInterface); ok && isNamed(mi.X.Type(), sgbucketPath, "CasMismatchErr") {
+						wrapped = m.instrPos(c)
+					}
+				}
+			})
+		}
+		r.check(wrapped == "", rule, "CAS-mismatch error is returned unwrapped", "-", "no CasMismatchErr is wrapped by fmt.Errorf (the retry loops recognise it by type assertion)", "a CasMismatchErr is wrapped with fmt.Errorf at "+wrapped+" while the retry loops test `err.(CasMismatchErr)`: a lost race is then reported to the caller as a failure instead of being retried")
 	}
 	// (d) UpdateFunc contract (sg-bucket): "updated == nil and !delete" means "leave the body alone", so the
 	// body written back must be either the callback's body or the body that was read
@@ -1600,4 +1685,14 @@ func (m *Model) isCasErrorPredicate(f *ssa.Function) bool {
 		}
 	}
 	return true
+}
+
+// isDocWriter: a package-level function that (transitively) runs the CAS allocator or the
+// with-meta writer, i.e. performs a document mutation.
+func (m *Model) isDocWriter(f *ssa.Function) bool {
+	if f == nil || !m.inPkg(f) || f.Parent() != nil || len(f.Blocks) == 0 {
+		return false
+	}
+	reach := m.reachableLocal(f)
+	return m.A.Allocator != nil && reach[m.A.Allocator] || m.A.WithMetaFn != nil && reach[m.A.WithMetaFn]
 }
